@@ -7,6 +7,11 @@ spec -> code: a really built and signed event of every shape and room version is
 enumerated subset T of {change / add a content key outside the keep-list, change a kept content key, change content.third_party_invite.signed, add a top-level
 key, change origin, change depth, change unsigned, add age_ts, add outlier + destinations, set event_id} x hash mode
 {kept, garbage, re-hashed by the forger, removed, a second algorithm entry added next to sha256}, parsed as untrusted JSON and compared with the specification.
+Two wire dimensions on top: the NAMES of the keys stripped on receipt written with a \\uXXXX escape (the same name: the outcome of the
+plain spelling) or in other letter case (another name: an unknown top-level key); and a top-level member written TWICE
+(content, type, depth, state_key, event_id, hashes, unsigned, age_ts; the smuggled copy before / after the genuine one; the
+hash as built, the forger's for the smuggled copy, or taken over the text with both copies): the parser must hand out one
+reading of such a text - unredacted only if that reading's content hash matches, else its redacted form - or refuse it.
 code -> spec: seeded random tamperings of random events, re-derived by EventIdentity_trace.tla."""
 from checks.c03 import record_and_validate
 from vlib.core import MachineryError
@@ -20,7 +25,21 @@ def run(ctx):
         "a garbage hash is realised as another well-formed hash, an empty string, a non-base64 string or a `hashes` "
         "object without sha256 (all well-typed JSON: malformed `hashes` values that make the parser fail are not generated)",
         "every record parses the tampered event, then the untampered one, the tampered one again and the untampered one again in one process: the results must not depend on what was parsed before",
-        "no top-level key differing from a protected key only in case (open C05 finding); no keys starting with `_`",
+        "no top-level key differing from a protected key only in case (open C05 finding; this excludes `Event_ID`, event_id being "
+        "on every keep list - the other keys stripped on receipt are enumerated in other letter case); no keys starting with `_`",
+        "spelling dimension: each key stripped on receipt (unsigned, age_ts, outlier + destinations, event_id in room versions 3+) alone "
+        "and next to a forged content key%s, its name with one character written as a \\uXXXX escape (position and hex-digit case "
+        "rotate) or in other letter case, x hash {kept, garbage, the forger's}, on the event as built; %s" % (
+            (", and two / three of them together", "all 16 room versions") if ctx.tier == "thorough" else
+            ("", "room versions 1, 3, 6, 10, 11, 12, org.matrix.msc4014")),
+        "multiplicity dimension: JSON with a repeated member name is ambiguous (RFC 8259 section 4), so only this is demanded: no panic; "
+        "the event handed out (JSON(), every accessor, the batch entry point) is ONE of the two readings (first copy / last copy), "
+        "unredacted only if the content hash of that reading matches, else its redacted form; a refusal is accepted. JSON() that still "
+        "carries the member twice is not one reading. The hash over the text with both copies is computed over the canonical form with "
+        "the two copies in wire order and swapped (of a key stripped on receipt: with only the first / only the last copy removed); "
+        "the smuggled copy's name also written with an escape; ID and signatures of such results are not compared; %s" % (
+            "all 16 room versions x all shapes" if ctx.tier == "thorough" else
+            "room versions 1, 3, 6, 10, 11, 12, org.matrix.msc4014 x 6 shapes (message, empty content, member with third-party invite, create, power levels, redaction)"),
         "VerifyEventSignatures of the parsed event is compared with the untampered event's verdict also where that one "
         "does not verify (invite / restricted join signed by the sender's server only; pseudo-ID member events without "
         "mxid_mapping); exception: room version 8, whose redaction drops join_authorised_via_users_server (repaired by "
@@ -30,8 +49,8 @@ def run(ctx):
     ctx.notes["rule"] = (
         "every behaviour of the tamper family of EventIdentity.tla: 16 room versions x 12 event shapes x optional "
         "operation before (%s; after a Redact() only tamper sets of at most one element) x tamper sets of at most %d or at least all-but-one applicable elements out of 11 x 5 "
-        "hash modes; distinct = distinct (ID format, redaction algorithm, type, tamper set, hash mode, redacted, "
-        "same-ID, valid signatures)" % (("none / second signature / Redact", 2) if ctx.tier == "quick"
+        "hash modes; plus the spelling and the multiplicity dimension (see the assumptions); distinct = distinct (ID format, redaction algorithm, type, tamper set, hash mode, redacted, "
+        "same-ID, valid signatures, name spelling; for a member written twice: member, position, spelling, hash mode, outcome)" % (("none / second signature / Redact", 2) if ctx.tier == "quick"
                                          else ("none / second signature / SetUnsigned / Redact", 3)))
     fams = ["tamper"] if ctx.tier == "quick" else ["tamper", "tamperfull"]
     ctx.notes["constants"] = ", ".join("EventIdentity_gen_%s_%s.cfg" % (f, ctx.tier) for f in fams)
@@ -43,10 +62,20 @@ def run(ctx):
         if fam == "tamper":
             # the generator must contain, for every redaction algorithm, events that are invariant under redaction
             # whose hash was changed / removed (the only thing that tells them apart after parsing is Redacted())
-            have = set((x["algo"], x["hm"]) for x in r.records if x["noop"] and x["red"] and x["hm"] in ("garbage", "remove"))
+            have = set((x["algo"], x["hm"]) for x in r.records
+                       if x["fam"] == "tamper" and x["noop"] and x["red"] and x["hm"] in ("garbage", "remove"))
             missing = [(a, h) for a in range(1, 6) for h in ("garbage", "remove") if (a, h) not in have]
             if missing:
                 raise MachineryError("tamper family lost its redaction-invariant events with a bad hash: %s" % missing)
+            # ... and both wire dimensions: every stripped key in both spellings, every member twice in both positions
+            spelt = set((x["sp"], t) for x in r.records if x["fam"] == "tamper" and x["sp"] != "plain" for t in x["T"])
+            want = set((sp, t) for sp in ("esc", "case") for t in ("unsigned", "age_ts", "outdest", "event_id")) - {("case", "event_id")}
+            dups = set((x["m"], x["pos"]) for x in r.records if x["fam"] == "dup")
+            wantd = set((m, pos) for m in ("content", "type", "depth", "state_key", "event_id", "hashes") for pos in ("before", "after")) \
+                | {("unsigned", "before"), ("age_ts", "before")}
+            if want - spelt or wantd - dups:
+                raise MachineryError("tamper family lost wire dimensions: spellings %s, duplicated members %s"
+                                     % (sorted(want - spelt), sorted(wantd - dups)))
         ctx.replay_and_compare("c04", r.records, pkg=PKG)
         del r
     record_and_validate(ctx, "c04", 3000 if ctx.tier == "quick" else 60000, "C04")
